@@ -11,7 +11,7 @@ from harness.world import World
 
 BASE = 1_000_000_000          # virtual epoch (whole seconds): tick k  <->  BASE + k/2 seconds
 DIRSEL = "/d"
-REQ = {"G": b"/d\r\n", "GP": b"/d\t+\r\n", "H": b"GET /d HTTP/1.0\r\n\r\n"}
+REQ = {"G": b"/d\r\n", "GP": b"/d\t+\r\n", "GD": b"/d\t$\r\n", "H": b"GET /d HTTP/1.0\r\n\r\n"}
 
 
 class CacheWorld:
@@ -46,7 +46,8 @@ class CacheWorld:
         self.virtualize_times()
 
     def _put(self, n, v):
-        self.w.write("d/" + n, b"content of " + n.encode() + b"\n")
+        # file b is EMPTY: a size of 0 (set but falsy) must survive the cache like any other field
+        self.w.write("d/" + n, b"" if n == "b" else b"content of " + n.encode() + b"\n")
         self.w.write("d/" + n + ".abstract", v.encode() + b"\n")
 
     def apply(self, a):
@@ -115,7 +116,7 @@ class CacheWorld:
         fill = [e for e in view if e["n"].startswith("zfill-")]
         view = [e for e in view if not e["n"].startswith("zfill-")]
         if ok and [e["n"][:8] for e in fill] != ["zfill-%02d" % i for i in range(getattr(self, "filler", 0))]:
-            view.append({"n": "?filler", "v": "none", "mt": "na"})       # wrong filler entries: not a faithful listing
+            view.append({"n": "?filler", "v": "none", "mt": "na", "sz": "na"})       # wrong filler entries: not a faithful listing
         ev = {"ev": "request", "p": p, "view": view, "listed": self.listed > 0, "rewritten": rewritten, "ok": ok}
         extra = {"raw": r.out[:600].decode("latin-1"), "log": r.log[-3:], "escaped": r.escaped,
                  "clock_reads": envsub.ENV.clock_reads - reads0}
@@ -137,6 +138,8 @@ def lex_listing(p, out: bytes):
     except Exception:
         return [], False
     entries = []
+    if p == "GD":
+        return lex_attr_listing(text)
     if p in ("G", "GP"):
         if p == "GP":
             if not text.startswith("+-2\r\n") and not re.match(r"\+\d+\r\n", text):
@@ -157,7 +160,7 @@ def lex_listing(p, out: bytes):
                 else:
                     return [], False
             else:
-                entries.append({"n": name, "v": "none", "mt": "na"})
+                entries.append({"n": name, "v": "none", "mt": "na", "sz": "na"})
         return entries, True
     # HTTP
     if not text.startswith("HTTP/1.0 200 "):
@@ -168,9 +171,42 @@ def lex_listing(p, out: bytes):
     for m in _ROW.finditer(body):
         name = html.unescape(m.group(2))
         if m.group(1):
-            entries.append({"n": name, "v": "none", "mt": html.unescape(m.group(4))})
+            entries.append({"n": name, "v": "none", "mt": html.unescape(m.group(4)), "sz": "na"})
         elif entries:
             entries[-1]["v"] = name
+        else:
+            return [], False
+    return entries, True
+
+
+def lex_attr_listing(text):
+    """Gopher+ `$` answer: '+-2' then per item +INFO / +ADMIN / +VIEWS [/ +ABSTRACT] blocks."""
+    if not text.startswith("+-2\r\n") or not text.endswith("\r\n"):
+        return [], False
+    entries, block = [], None
+    for line in text[5:-2].split("\r\n"):
+        if line.startswith("+INFO: "):
+            f = line[7:].split("\t")
+            if len(f) not in (4, 5) or not f[0]:
+                return [], False
+            if f[0][0] == "i":          # the abstract repeated as an info item: belongs to the previous entry
+                if not entries:
+                    return [], False
+                entries[-1]["v"] = f[0][1:]
+                block = "SKIP"
+                continue
+            entries.append({"n": f[0][1:], "v": "none", "mt": "na", "sz": "none"})
+            block = "INFO"
+        elif line.startswith("+") and line.rstrip().endswith(":"):
+            block = "SKIP" if block == "SKIP" else line[1:].rstrip()[:-1]
+        elif line.startswith(" ") and entries:
+            if block == "SKIP":
+                continue
+            if block == "VIEWS":
+                m = re.search(r"<(\d+)k>", line)
+                entries[-1]["sz"] = (m.group(1) + "k") if m else "none"
+            elif block == "ABSTRACT":
+                entries[-1]["v"] = line[1:]
         else:
             return [], False
     return entries, True
